@@ -5,6 +5,7 @@ import Props.C10
 import Props.C11
 import Props.C12
 import Props.C18
+import SdxProofs.Height
 set_option linter.unusedSectionVars false
 /-!
 # C08 — Synthetic row count tracks the original within the hard noise bound
@@ -98,5 +99,252 @@ theorem C08_materialize_rows (E : Env α) (inp : ForestIn α) (F : Forest α) (h
           have e := sum_toNat_of_pos bs hpos
           rw [← hlen] at e
           rw [e]; exact hsum
+
+end
+
+/-!
+## C08, end to end for one cluster
+
+`Synthesizer(df, SingleClustering).sample()` in the model — `Forest.init`, the tree over all columns (or the single column),
+`harvest`, `generate_microdata` — for a table in which every row carries its own non-null entity id (implicit row ids):
+the number of synthetic rows lies between `N − 1 − (17·sd + ½)` and `N + 17·sd + ½`, and the table is empty only if the root
+fails the low-count filter, which needs `N < low_threshold + (gap + 8.5)·layer_sd`. Everything between the input table and the
+row list is inside the theorem: no row lost or counted twice (`C18_forest_tree`: the leaves' rows are a permutation of
+`0..N−1`; `forest_tree_matchingRows`: the counter sees all of them), two noise layers of at most `8.5·sd` each, the floor
+at `low_threshold`, rescaling with a loss of at most one unit through the whole stateful harvest, one row per unit of count.
+-/
+
+set_option linter.unusedVariables false
+section
+variable {α : Type} [Field α] [LinearOrder α] [IsStrictOrderedRing α] [FloorRing α] [Inhabited α]
+
+/-- what `Forest.__init__` copies from its arguments -/
+theorem forest_init_ctx (E : Env α) (inp : ForestIn α) (F : Forest α) (h : Forest.init E inp = .ok F) :
+    F.ctx.pids = inp.pids ∧ F.ctx.ap = inp.ap ∧ F.ctx.kind = inp.kind ∧ F.ctx.bp = inp.bp := by
+  unfold Forest.init at h
+  simp only [bind, Except.bind] at h
+  split at h
+  · cases h
+  · split at h
+    · cases h
+    · simp only [pure, Except.pure, Except.ok.injEq] at h
+      subst h
+      exact ⟨rfl, rfl, rfl, rfl⟩
+
+/-- every row carries exactly one non-null id (implicit row ids, or an id column without nulls and without repeats) -/
+def OneIdPerRow (pids : Array (List UInt64)) (n : Nat) : Prop := ∀ r < n, ∃ p, pids[r]! = [p] ∧ p ≠ 0
+
+/-- the unique-id counter over rows that each carry one non-null id counts the rows -/
+theorem unique_counter_rows (c : FCtx α) (n : Nat) (hids : OneIdPerRow c.pids n) (l : List Nat) (hl : ∀ r ∈ l, r < n) :
+    ∃ s, CounterKind.unique.newEntity.addMany (l.map c.pidRow) = .unique l.length s := by
+  have h1 : ∀ r ∈ l.map c.pidRow, r.length = 1 := by
+    intro r hr
+    obtain ⟨i, hi, rfl⟩ := List.mem_map.mp hr
+    obtain ⟨p, hp, _⟩ := hids i (hl i hi)
+    simp [FCtx.pidRow, hp]
+  have h2 : ((idColumn (l.map c.pidRow) 0).filter (· ≠ 0)).length = l.length := by
+    have : (idColumn (l.map c.pidRow) 0).filter (· ≠ 0) = idColumn (l.map c.pidRow) 0 := by
+      apply List.filter_eq_self.mpr
+      intro x hx
+      simp only [idColumn, List.map_map, List.mem_map, Function.comp] at hx
+      obtain ⟨i, hi, rfl⟩ := hx
+      obtain ⟨p, hp, hp0⟩ := hids i (hl i hi)
+      simp [FCtx.pidRow, hp, hp0]
+    rw [this]; simp [idColumn]
+  refine ⟨((idColumn (l.map c.pidRow) 0).filter (· ≠ 0)).foldl (· ^^^ ·) 0, ?_⟩
+  simp only [CounterKind.newEntity]
+  rw [unique_addMany 0 0 _ h1, h2, Nat.zero_add]
+
+/-- the root clauses of the invariant with exemptions (1-column trees after the push-down) -/
+theorem tinvO_root {E : Env α} {c : FCtx α} {root : List (Ival α)} {out : List Nat} {t : Node α} (h : TInvO E c root out t) :
+    (∃ hist : List Nat, hist.Perm t.allRows ∧ t.data.counter = c.kind.newEntity.addMany (hist.map c.pidRow)) ∧
+    (t.isLeaf = false → ∃ h0 : List Nat, h0.Subperm t.allRows ∧
+      (c.kind.newEntity.addMany (h0.map c.pidRow)).isLowCount E c.ap.salt c.ap.supp = false) := by
+  cases h with
+  | leaf d subs rows hN => exact ⟨by simpa [Node.allRows_leaf, Node.data] using hN.counter, fun hl => by simp [Node.isLeaf] at hl⟩
+  | branch d subs ch hN hB hC => exact ⟨by simpa [Node.data] using hN.counter, fun _ => hB.licence⟩
+
+/-- the root clauses of the invariant (trees of two or more columns) -/
+theorem tinv_root {E : Env α} {c : FCtx α} {root : List (Ival α)} {t : Node α} (h : TInv E c root t) :
+    (∃ hist : List Nat, hist.Perm t.allRows ∧ t.data.counter = c.kind.newEntity.addMany (hist.map c.pidRow)) ∧
+    (t.isLeaf = false → ∃ h0 : List Nat, h0.Subperm t.allRows ∧
+      (c.kind.newEntity.addMany (h0.map c.pidRow)).isLowCount E c.ap.salt c.ap.supp = false) := by
+  cases h with
+  | leaf _ d subs rows hN => exact ⟨by simpa [Node.allRows_leaf, Node.data] using hN.counter, fun hl => by simp [Node.isLeaf] at hl⟩
+  | branch _ d subs ch hN hB hC => exact ⟨by simpa [Node.data] using hN.counter, fun _ => by simpa using hB.licence⟩
+
+/-- what the tree invariant says about the root of a tree the forest hands out: it holds every row once, its entity counter
+counted exactly those rows, and if it was split it passed the filter on rows it holds -/
+theorem forest_root_facts (E : Env α) (inp : ForestIn α) (F : Forest α) (hinit : Forest.init E inp = .ok F)
+    (hn : 0 < inp.raw.size) (fuel : Nat) (comb : List Nat) (t : Node α) (hk : 1 ≤ comb.length)
+    (ht : F.tree? E fuel comb = some t) :
+    t.allRows.Perm (List.range F.ctx.data.size) ∧
+    (∃ hist : List Nat, hist.Perm t.allRows ∧ t.data.counter = F.ctx.kind.newEntity.addMany (hist.map F.ctx.pidRow)) ∧
+    (t.isLeaf = false → ∃ h0 : List Nat, h0.Subperm t.allRows ∧
+      (F.ctx.kind.newEntity.addMany (h0.map F.ctx.pidRow)).isLowCount E F.ctx.ap.salt F.ctx.ap.supp = false) := by
+  by_cases h1 : ∃ j, comb = [j]
+  · obtain ⟨j, rfl⟩ := h1
+    cases fuel with
+    | zero => simp [Forest.tree?] at ht
+    | succ fuel =>
+      rw [Forest.tree?] at ht
+      obtain ⟨hj, rfl⟩ := List.getElem?_eq_some_iff.mp ht
+      obtain ⟨out, hTO, hperm, _, _, _⟩ := C18_forest_trees1 E inp F hinit hn j hj
+      exact ⟨hperm, (tinvO_root hTO).1, (tinvO_root hTO).2⟩
+  · have hk2 : 2 ≤ comb.length := by
+      match comb, hk, h1 with
+      | [j], _, h1 => exact absurd ⟨j, rfl⟩ h1
+      | _ :: _ :: _, _, _ => simp
+    obtain ⟨_, h2⟩ := C18_forest_tree E inp F hinit hn fuel comb t hk ht
+    obtain ⟨hT, hperm⟩ := h2 hk2
+    exact ⟨hperm, (tinv_root hT).1, (tinv_root hT).2⟩
+
+/-- the low-count answer and the released count of the root of a forest tree, for a table with one non-null id per row:
+both are computed over all `N` rows -/
+theorem forest_root_unique (E : Env α) (inp : ForestIn α) (F : Forest α) (hinit : Forest.init E inp = .ok F)
+    (hn : 0 < inp.raw.size) (hkind : inp.kind = .unique) (hids : OneIdPerRow inp.pids inp.raw.size)
+    (fuel : Nat) (comb : List Nat) (t : Node α) (hk : 1 ≤ comb.length) (ht : F.tree? E fuel comb = some t) :
+    ∃ s1 s2 seed, t.overThreshold E F.ctx F.ctx.ap.supp.lt = !(isLowCount E F.ctx.ap.salt F.ctx.ap.supp [((inp.raw.size : Int), s1)]) ∧
+      t.noisyCount E F.ctx = .ok (max (countSingle E F.ctx.ap seed (inp.raw.size : Int) s2) F.ctx.ap.supp.lt) ∧
+      (t.isLeaf = false → F.ctx.ap.supp.lt ≤ (inp.raw.size : Int)) := by
+  obtain ⟨hpids, hap, hkd, _⟩ := forest_init_ctx E inp F hinit
+  obtain ⟨_, _, _, hsize, _, _⟩ := forest_init_trees1 E inp F hinit
+  obtain ⟨hperm, ⟨hist, hhist, hcnt⟩, hlic⟩ := forest_root_facts E inp F hinit hn fuel comb t hk ht
+  have hmr := forest_tree_matchingRows E inp F hinit fuel comb t ht
+  have hids' : OneIdPerRow F.ctx.pids inp.raw.size := by rw [hpids]; exact hids
+  have hlt_all : ∀ r ∈ t.allRows, r < inp.raw.size := by
+    intro r hr
+    have := hperm.subset hr
+    rw [hsize] at this
+    exact List.mem_range.mp this
+  have hlen_all : t.allRows.length = inp.raw.size := by rw [hperm.length_eq, hsize]; simp
+  rw [hkd, hkind] at hcnt hlic
+  obtain ⟨s1, hs1⟩ := unique_counter_rows F.ctx inp.raw.size hids' hist (fun r hr => hlt_all r (hhist.subset hr))
+  obtain ⟨s2, hs2⟩ := unique_counter_rows F.ctx inp.raw.size hids' t.allRows hlt_all
+  rw [hhist.length_eq, hlen_all] at hs1
+  rw [hlen_all] at hs2
+  refine ⟨s1, s2, t.data.baseSeed ^^^ hashStrings E (t.bucketIntervals.map (fun iv => E.label iv.middle)), ?_, ?_, ?_⟩
+  · unfold Node.overThreshold
+    rw [hcnt, hs1]
+    simp [ECounter.isLowCount, ECounter.trackers]
+  · unfold Node.noisyCount
+    simp only [hmr, hkd, hkind, rowNoisyCount, hs2]
+  · intro hl
+    obtain ⟨h0, hsub, hlow⟩ := hlic hl
+    obtain ⟨s3, hs3⟩ := unique_counter_rows F.ctx inp.raw.size hids' h0 (fun r hr => hlt_all r (hsub.subset hr))
+    rw [hs3] at hlow
+    simp only [ECounter.isLowCount, ECounter.trackers] at hlow
+    by_contra hcon
+    have hlen0 : (h0.length : Int) ≤ (inp.raw.size : Int) := by
+      have := hsub.length_le
+      rw [hlen_all] at this
+      exact_mod_cast this
+    have := C02_floor E F.ctx.ap.salt F.ctx.ap.supp [((h0.length : Int), s3)] (h0.length : Int) s3 (by simp) (by omega)
+    rw [this] at hlow
+    cases hlow
+
+/-- **C08 for one cluster, end to end in the model.**  `Forest.init` on a table of `N ≥ 1` rows, each row with its own non-null entity id
+(unique-id counters), then `materialize_tree` over any combination of its columns (`SingleClustering`: all of them; also what
+every column contributes under per-column patching): whatever the data, the salt, the fitted convertors and the two RNG streams,
+* the table is empty only if `N < low_threshold + (low_mean_gap + 8.5)·layer_sd`;
+* otherwise it has between `N − 1 − (17·layer_noise_sd + ½)` and `N + 17·layer_noise_sd + ½` rows
+(`low_threshold ≥ 2`, non-negative `layer_sd`, `low_mean_gap`, `layer_noise_sd`; deviates bounded by 8.5, which Box–Muller on
+`u₁ ≥ 2⁻⁵²` is — `C03_boxMuller_bound`). -/
+theorem C08_single_cluster_rows (E : Env α) (inp : ForestIn α) (F : Forest α) (hinit : Forest.init E inp = .ok F)
+    (hn : 0 < inp.raw.size) (hkind : inp.kind = .unique) (hids : OneIdPerRow inp.pids inp.raw.size)
+    (hlt : 2 ≤ inp.ap.supp.lt) (hsd : 0 ≤ inp.ap.supp.sd) (hgap : 0 ≤ inp.ap.supp.gap) (hnsd : 0 ≤ inp.ap.noiseSd)
+    (hz : ∀ s, |E.z s| ≤ 17 / 2)
+    (convs : List (Conv α)) (comb : List Nat) (hk : 1 ≤ comb.length) (hstream : List Nat) (mstream : List (Draw α))
+    (rows : List (List (Cell α × α))) (drawn left : Nat)
+    (h : materializeTree E F convs comb hstream mstream = .ok (rows, drawn, left)) :
+    (rows = [] → ((inp.raw.size : Int) : α) < (inp.ap.supp.lt : α) + (inp.ap.supp.gap + 17 / 2) * inp.ap.supp.sd) ∧
+    (rows ≠ [] → ((inp.raw.size : Int) : α) - 1 - (17 * inp.ap.noiseSd + 1 / 2) ≤ ((rows.length : Int) : α) ∧
+      ((rows.length : Int) : α) ≤ ((inp.raw.size : Int) : α) + (17 * inp.ap.noiseSd + 1 / 2)) := by
+  obtain ⟨_, hap, _, _⟩ := forest_init_ctx E inp F hinit
+  have hlt' : 2 ≤ F.ctx.ap.supp.lt := by rw [hap]; exact hlt
+  unfold materializeTree at h
+  split at h
+  · cases h
+  · rename_i t ht
+    split at h
+    · cases h
+    · rename_i bs drawn' hh
+      simp only at h
+      split at h
+      · cases h
+      · rename_i rows' rest hm
+        simp only [Except.ok.injEq, Prod.mk.injEq] at h
+        obtain ⟨rfl, _, _⟩ := h
+        have hlen := C10_microdata_rows E _ _ bs mstream rest rows' hm
+        have hpos := C10_harvest_positive E F.ctx t hstream bs drawn' hh
+        have hsum := sum_toNat_of_pos bs hpos
+        rw [← hlen] at hsum
+        obtain ⟨s1, s2, seed, hover, hnoisy, hbranch⟩ := forest_root_unique E inp F hinit hn hkind hids 8 comb t hk ht
+        have hshape := (C18_forest_tree E inp F hinit hn 8 comb t hk ht).1.2.2
+        rcases C10_harvest_conservation_strong E F.ctx (by omega) t hshape hstream bs drawn' hh with ⟨rfl, hsup⟩ | ⟨hrel, N, hN, hNsum⟩
+        · -- nothing released: the root fails the filter
+          have hr0 : rows' = [] := by
+            have : rows'.length = 0 := by simpa using hlen
+            exact List.length_eq_zero_iff.mp this
+          refine ⟨fun _ => ?_, fun hne => absurd hr0 hne⟩
+          rw [hover] at hsup
+          have hlow : isLowCount E F.ctx.ap.salt F.ctx.ap.supp [((inp.raw.size : Int), s1)] = true := by simpa using hsup
+          by_contra hcon
+          push Not at hcon
+          have := C08_large_group_passes E F.ctx.ap.salt F.ctx.ap.supp (inp.raw.size : Int) s1 (by rw [hap]; exact hsd) (by rw [hap]; exact hgap) hz
+            (by rw [hap]; exact hcon)
+          rw [this] at hlow
+          cases hlow
+        · -- something released: the counts add up to the released count of the root or one less
+          rw [hnoisy] at hN
+          simp only [Except.ok.injEq] at hN
+          have hNlt : F.ctx.ap.supp.lt ≤ N := by rw [← hN]; exact le_max_right _ _
+          have hlenN : (rows'.length : Int) = N ∨ (rows'.length : Int) = N - 1 := by rw [hsum]; exact hNsum
+          have hne : rows' ≠ [] := by
+            intro he
+            rw [he] at hlenN
+            simp at hlenN
+            omega
+          refine ⟨fun he => absurd he hne, fun _ => ?_⟩
+          -- the root holds at least `low_threshold` rows
+          have hfloor : F.ctx.ap.supp.lt ≤ (inp.raw.size : Int) := by
+            by_cases hl : t.isLeaf = true
+            · have hov := hrel hl
+              rw [hover] at hov
+              have hlow : isLowCount E F.ctx.ap.salt F.ctx.ap.supp [((inp.raw.size : Int), s1)] = false := by simpa using hov
+              by_contra hcon
+              have := C02_floor E F.ctx.ap.salt F.ctx.ap.supp [((inp.raw.size : Int), s1)] (inp.raw.size : Int) s1 (by simp) (by omega)
+              rw [this] at hlow
+              cases hlow
+            · exact hbranch (by simpa using hl)
+          have hb := C08_count_within_bound E F.ctx.ap seed s2 (inp.raw.size : Int) (by rw [hap]; exact hnsd) hz
+          rw [hap] at hb hN hNlt hfloor
+          rw [abs_le] at hb
+          set v := countSingle E inp.ap seed (inp.raw.size : Int) s2 with hv
+          have hNv : (v : α) ≤ (N : α) := by
+            have : v ≤ N := by rw [← hN]; exact le_max_left _ _
+            exact_mod_cast this
+          have hNup : (N : α) ≤ ((inp.raw.size : Int) : α) + (17 * inp.ap.noiseSd + 1 / 2) := by
+            have h17 : (0 : α) ≤ 17 * inp.ap.noiseSd + 1 / 2 := by positivity
+            rcases le_total v inp.ap.supp.lt with hle | hle
+            · have : N = inp.ap.supp.lt := by rw [← hN]; exact max_eq_right hle
+              rw [this]
+              have : (inp.ap.supp.lt : α) ≤ ((inp.raw.size : Int) : α) := by exact_mod_cast hfloor
+              linarith
+            · have : N = v := by rw [← hN]; exact max_eq_left hle
+              rw [this]
+              linarith [hb.2]
+          rcases hlenN with hl | hl
+          · rw [hl]
+            constructor <;> linarith [hb.1]
+          · rw [hl]
+            have e : ((N - 1 : Int) : α) = (N : α) - 1 := by push_cast; rfl
+            rw [e]
+            constructor <;> linarith [hb.1]
+
+/-- Non-vacuity: three rows with ids 5, 6, 7 satisfy the id hypothesis. -/
+example : OneIdPerRow #[[5], [6], [7]] 3 := by
+  intro r hr
+  interval_cases r <;> simp
 
 end
